@@ -97,7 +97,7 @@ func c01Apply(w *world.World, e c01Event) c01Step {
 		for _, c := range w.Store.Calls() {
 			occ[c.Op]++
 		}
-		op := map[string]string{"userinfo": "SetUserinfoWithUserID", "key": "GetResponseSigningKey", "entity": "GetEntityIDByAppID"}[e.A]
+		op := map[string]string{"userinfo": "SetUserinfoWithUserID", "key": "GetResponseSigningKey", "entity": "GetEntityIDByAppID", "lookup": "AuthRequestByID"}[e.A]
 		kind := world.FaultError
 		if e.B != "" {
 			kind = e.B
@@ -273,7 +273,8 @@ func c01Menu(n, cap int, armed bool) []c01Event {
 	}
 	if !armed {
 		out = append(out, c01Event{Kind: "arm", A: "userinfo"}, c01Event{Kind: "arm", A: "key"}, c01Event{Kind: "arm", A: "key", B: world.FaultNoCert}, c01Event{Kind: "arm", A: "entity"},
-			c01Event{Kind: "arm", A: "userinfo", B: world.FaultPartial}, c01Event{Kind: "arm", A: "key", B: world.FaultGarbageCert}, c01Event{Kind: "arm", A: "key", B: world.FaultZeroKey}, c01Event{Kind: "arm", A: "key", B: world.FaultMismatch}, c01Event{Kind: "arm", A: "key", B: world.FaultForeignKey})
+			c01Event{Kind: "arm", A: "userinfo", B: world.FaultPartial}, c01Event{Kind: "arm", A: "key", B: world.FaultGarbageCert}, c01Event{Kind: "arm", A: "key", B: world.FaultZeroKey}, c01Event{Kind: "arm", A: "key", B: world.FaultMismatch}, c01Event{Kind: "arm", A: "key", B: world.FaultForeignKey},
+			c01Event{Kind: "arm", A: "key", B: world.FaultErrWithValue}, c01Event{Kind: "arm", A: "userinfo", B: world.FaultErrWithValue}, c01Event{Kind: "arm", A: "entity", B: world.FaultErrWithValue}, c01Event{Kind: "arm", A: "lookup", B: world.FaultErrWithValue})
 	}
 	return out
 }
@@ -289,7 +290,7 @@ func c01Key(w *world.World) (string, int, bool) {
 	}
 	// an armed but not yet fired fault is part of the state
 	armed := false
-	for _, op := range []string{"SetUserinfoWithUserID", "GetResponseSigningKey", "GetEntityIDByAppID"} {
+	for _, op := range []string{"SetUserinfoWithUserID", "GetResponseSigningKey", "GetEntityIDByAppID", "AuthRequestByID"} {
 		if w.Store.PendingFault(op) != "" {
 			armed = true
 			sb.WriteString("{armed:" + op + ":" + w.Store.PendingFault(op) + "}")
@@ -442,7 +443,7 @@ func runC01(ctx Ctx) int {
 		}
 	}
 	run := ev.NewRun("C01")
-	run.Rule = "E2: breadth-first search over event histories on the real provider: events = SSO acceptance (POST/Redirect), injected pending records (binding POST/Redirect/none/Artifact x consumer URL registered/empty, and records reusing the first session's SP-chosen request ID and RelayState), login completion of any session, callback of any session in 10 id placements / spellings (GET query, POST body, body and query naming different sessions, two id values, id in a header only, padded, upper-cased, urn:uuid: prefix, braces, dash-less; stored ids are UUID-shaped) plus unknown / empty / absent id, and arming a one-shot storage failure (user info, entity lookup, signing key error / key without certificate / garbage certificate / zero key / certificate of another key); states are deduplicated by a canonical key (sessions in creation order: binding, consumer-URL-empty, done, user; armed fault) and every transition, including self-loops, is executed by replaying the shortest history on a fresh provider and judged; every state is additionally extended by callback(k) ; callback(any) and by callback(k) ; arm(any storage failure) ; callback(j) so that state kept inside the IdP between requests shows. E3 (controlled scheduler; scheduling points before every statement of every repository function, at every function entry and storage call): callback(i) || complete(i) with unbounded preemptions (both bindings), callback(i) || callback(j) || complete(j) at preemption bound 2 (quick) / 3 (thorough) at function-entry granularity and at bound 1 / 2 at statement granularity, two callbacks of one user (one pending, one done) at bound 2"
+	run.Rule = "E2: breadth-first search over event histories on the real provider: events = SSO acceptance (POST/Redirect), injected pending records (binding POST/Redirect/none/Artifact x consumer URL registered/empty, and records reusing the first session's SP-chosen request ID and RelayState), login completion of any session, callback of any session in 10 id placements / spellings (GET query, POST body, body and query naming different sessions, two id values, id in a header only, padded, upper-cased, urn:uuid: prefix, braces, dash-less; stored ids are UUID-shaped) plus unknown / empty / absent id, and arming a one-shot storage failure (user info, entity lookup, signing key error / key without certificate / garbage certificate / zero key / certificate of another key; an error returned together with a usable value by the key, user-info, entity and request lookups); states are deduplicated by a canonical key (sessions in creation order: binding, consumer-URL-empty, done, user; armed fault) and every transition, including self-loops, is executed by replaying the shortest history on a fresh provider and judged; every state is additionally extended by callback(k) ; callback(any) and by callback(k) ; arm(any storage failure) ; callback(j) so that state kept inside the IdP between requests shows. E3 (controlled scheduler; scheduling points before every statement of every repository function, at every function entry and storage call): callback(i) || complete(i) with unbounded preemptions (both bindings), callback(i) || callback(j) || complete(j) at preemption bound 2 (quick) / 3 (thorough) at function-entry granularity and at bound 1 / 2 at statement granularity, two callbacks of one user (one pending, one done) at bound 2"
 	run.Assume = []string{"<= 2 sessions and depth 5 (quick), <= 3 sessions and depth 6 (thorough); the canonical key keeps, of request ID and RelayState, only whether a session reuses the first session's values"}
 	if ctx.Replay != "" {
 		var rp c01ReplayT
